@@ -466,6 +466,37 @@ fn exh_case(idx: u64, ctx: &mut Ctx) -> CaseResult {
     scaling_case(idx as usize, ctx)
 }
 
+/// Number of non-empty arrays in an item (byte-string-wrapped content excluded).
+fn count_arrays(i: &Item) -> usize {
+    match i {
+        Item::Array(a) => (if a.is_empty() { 0 } else { 1 }) + a.iter().map(count_arrays).sum::<usize>(),
+        Item::Map(m) => m.iter().map(|(k, v)| count_arrays(k) + count_arrays(v)).sum(),
+        Item::Tag(_, x) => count_arrays(x),
+        _ => 0,
+    }
+}
+
+/// Repeat an element of the `at`-th non-empty array (pre-order) next to itself.
+fn dup_in_array(i: &mut Item, at: &mut usize, which: u64) -> bool {
+    match i {
+        Item::Array(a) => {
+            if !a.is_empty() {
+                if *at == 0 {
+                    let k = (which % a.len() as u64) as usize;
+                    let e = a[k].clone();
+                    a.insert(k + 1, e);
+                    return true;
+                }
+                *at -= 1;
+            }
+            a.iter_mut().any(|x| dup_in_array(x, at, which))
+        }
+        Item::Map(m) => m.iter_mut().any(|(k, v)| dup_in_array(k, at, which) || dup_in_array(v, at, which)),
+        Item::Tag(_, x) => dup_in_array(x, at, which),
+        _ => false,
+    }
+}
+
 fn case(g: &mut Gen, ctx: &mut Ctx) -> CaseResult {
     let aad = g.small_bytes();
     let payload = g.small_bytes();
@@ -482,11 +513,28 @@ fn case(g: &mut Gen, ctx: &mut Ctx) -> CaseResult {
         1 => {
             ctx.class("mode:mutated-valid");
             let types = all_types();
-            let t = &types[g.below(types.len())];
+            // half of the time one of the structures with nested lists
+            let t = if g.bool() {
+                let nested: Vec<&crate::props::types::TypeOps> = types.iter().filter(|t| matches!(t.name, "CoseSign" | "CoseEncrypt" | "CoseMac" | "CoseRecipient" | "CoseKeySet")).collect();
+                if nested.is_empty() { &types[g.below(types.len())] } else { nested[g.below(nested.len())] }
+            } else {
+                &types[g.below(types.len())]
+            };
             let mut f = if g.ratio(1, 4) { Faults::one() } else { Faults::none() };
-            let item = gen_for_shape(g, t.shape, &mut f);
-            let mut o = StyleOpts::ALL;
-            o.undefined_for_null = true;
+            let mut item = gen_for_shape(g, t.shape, &mut f);
+            // structure-level mutation: some element of some array repeated next to itself
+            if g.ratio(1, 4) {
+                let n = count_arrays(&item);
+                if n > 0 {
+                    let mut at = g.below(n);
+                    let which = g.u64();
+                    dup_in_array(&mut item, &mut at, which);
+                    ctx.class("mutation:array-element-repeated");
+                }
+            }
+            // deterministic style half of the time (copies of an item then have identical bytes)
+            let mut o = if g.bool() { StyleOpts::NONE } else { StyleOpts::ALL };
+            o.undefined_for_null = g.bool();
             let (mut b, _) = styled(&item, g, o);
             if let (Some(tag), true) = (t.tag, g.ratio(1, 4)) {
                 let mut tb = vec![];
@@ -494,7 +542,7 @@ fn case(g: &mut Gen, ctx: &mut Ctx) -> CaseResult {
                 tb.extend_from_slice(&b);
                 b = tb;
             }
-            let nm = g.below(9);
+            let nm = g.weighted(&[4, 2, 1, 1, 1, 1, 1, 1, 1]);
             for _ in 0..nm {
                 if b.is_empty() {
                     break;
@@ -571,7 +619,7 @@ pub fn property() -> Property {
         exh_count,
         exh_case,
         bytes_case: Some(bytes_case),
-        quick_cases: 60_000,
+        quick_cases: 120_000,
         thorough_cases: 1_500_000,
         max_tape: 8192,
     }
